@@ -873,6 +873,12 @@ func (e *Eng) applyContract(con *Contract, fi *FuncInfo, name string, recv *Val,
 			var lit *ast.FuncLit
 			if x != nil && idx >= 0 && idx < len(x.Args) {
 				lit, _ = ast.Unparen(x.Args[idx]).(*ast.FuncLit)
+				if id, ok := ast.Unparen(x.Args[idx]).(*ast.Ident); ok && lit == nil {
+					// a local bound once to a function literal stands for that literal
+					if v, ok := e.info.Uses[id].(*types.Var); ok {
+						lit = e.soleFuncLit(v)
+					}
+				}
 			}
 			if lit == nil {
 				e.havocAll(c.st)
